@@ -35,6 +35,9 @@ type Conn struct {
 	Writes int
 	local  Addr
 	remote Addr
+	// link: the other end when two mangos sockets talk to each other over the harness network
+	// (what is written here is read there, in the chunks it was written in)
+	link *Conn
 }
 
 func NewConn(name string) *Conn {
@@ -69,6 +72,9 @@ func (c *Conn) Write(b []byte) (int, error) {
 		return 0, errClosed
 	}
 	c.Out = append(c.Out, b...)
+	if c.link != nil && !c.link.Closed && len(b) > 0 {
+		c.link.inq <- append([]byte{}, b...)
+	}
 	return len(b), nil
 }
 
@@ -76,6 +82,9 @@ func (c *Conn) Close() error {
 	if !c.Closed {
 		c.Closed = true
 		close(c.closeq)
+		if c.link != nil && !c.link.Closed {
+			c.link.inq <- nil // the other end reads EOF
+		}
 	}
 	return nil
 }
@@ -129,6 +138,8 @@ type Net struct {
 	Conns     []*Conn
 	// DialOutcome decides outgoing connections: nil conn => refused.
 	DialOutcome func(addr string) *Conn
+	// AutoLink: a dial to an address some socket of the harness listens on is connected to that listener
+	AutoLink bool
 }
 
 var N *Net
@@ -156,6 +167,16 @@ func Install() *Net {
 			}
 			n.Conns = append(n.Conns, c)
 			return c, nil
+		}
+		if n.AutoLink {
+			// two mangos sockets in one harness: connect the dialer to the listener bound to that address
+			if l, ok := n.Listeners[addr]; ok && !l.Closed {
+				a, b := NewConn("dial-side"), NewConn("accept-side")
+				a.link, b.link = b, a
+				n.Conns = append(n.Conns, a, b)
+				l.acceptq <- b
+				return a, nil
+			}
 		}
 		return nil, ErrRefused
 	}
